@@ -78,7 +78,8 @@ func look(ul flowcontrols.UpstreamLimiter, names []string, name int) (SeenJ, flo
 	}
 	// what the dispatcher asks
 	if d := ul.GetOrDefault(hname(name)); d == flowcontrol.DefaultFlowControl {
-		return SeenJ{Kind: "none"}, nil, "the system-default exempt limiter (GetOrDefault)"
+		// the built-in limiter IS an exempt limiter: fine for an exempt schema, wrong for any limiting one
+		return SeenJ{Kind: "exempt"}, nil, "the built-in system-default exempt limiter (GetOrDefault does not find the schema)"
 	}
 	inner := innerOf(fc)
 	switch inner.Type() {
@@ -165,7 +166,7 @@ func checkHistMode(c *rig.Ctx, cs Case, wall bool) *failure {
 					}
 					if v.Legal && !v.Ok && fail == nil {
 						b, _ := jsonString(s)
-						fail = &failure{"judge", "c06.inforce", fmt.Sprintf("op %d: schema %s is served by [%s]: not a limiter of its type with its configured local parameters", i, b, str), seen, nil}
+						fail = &failure{"judge", "c06.inforce", fmt.Sprintf("op %d: schema %s named %q is served by [%s]: not a limiter of its type with its configured local parameters", i, b, rawName(s.Name), str), seen, nil}
 					}
 					if !s.isTB() || seen.Kind != "tb" {
 						continue
